@@ -76,6 +76,23 @@ def acknowledged (rc : RC) (st : Nat) : Bool :=
 
 def replyOf (rc : RC) (st : Nat) : Reply := if acknowledged rc st then .ok else .failed
 
+/-- the statuses that say a rollback is under way or done: Rollbacking, RollbackRetrying, TimeoutRollbacking,
+    TimeoutRollbackRetrying, Rollbacked, TimeoutRollbacked -/
+def rollingBack (st : Nat) : Bool := st ∈ [4, 5, 6, 7, 11, 13]
+/-- the statuses that say the transaction is not (going to be) rolled back: the commit family, CommitFailed,
+    RollbackFailed, TimeoutRollbackFailed -/
+def notRolledBack (st : Nat) : Bool := st ∈ [2, 3, 8, 9, 10, 12, 14]
+
+/-- `rollbackRefusal resp == nil`: the answer to a GlobalRollback request is an acknowledgement -/
+def rollbackAcknowledged (rc : RC) (st : Nat) : Bool :=
+  if notRolledBack st then false
+  else if rollingBack st then true
+  else rc == .success
+
+/-- `GlobalTransactionManager.Rollback` of a launcher with one answered request, before the repair: every
+    answer was a success -/
+def rollbackAcknowledgedBeforeFix (_ : RC) (_ : Nat) : Bool := true
+
 def decision (cb : Outcome) : Req := if cb = .ok then .commit else .rollback
 
 /-- WithGlobalTx for a launcher, as the code stands at HEAD (after the `fix:` commits).
